@@ -374,6 +374,8 @@ _sink(struct pcp_server *svr, char *targ, BUF *bufp) {
                     (void)chmod(np, mode);
             } else if (mkdir(np, mode) < 0)
                 goto bad;
+            else if (svr->preserve)
+                (void)chmod(np, mode);   /* mkdir(2) ignores set-id bits */
 
             /* recursively go down a directory */
             _sink(svr, np, bufp);
